@@ -33,6 +33,29 @@ theorem wcscpy_s_C03_partial (cfg : Cfg) (dest dmax src : Nat) (st : St) (hs : S
       ∃ i, i < dmax ∧ st'.data (dest + i) = 0 := by
   rw [wcscpy_eq]; exact strcpyG_C03_partial _ cfg dest dmax src st hs hrw hd hpos hle hne
 
+/-- strncpy_s / strcat_s / strncat_s: FULL (no exclusion needed) for usable dest -/
+theorem strncpy_s_C03 (cfg : Cfg) (dest dmax src slen : Nat) (st : St) (hs : Setting st)
+    (hrw : dest ≠ 0 → RW st dest dmax) (hd : dest ≠ 0) (hpos : 0 < dmax) (hle : dmax ≤ RSIZE_MAX_STR) :
+    ∃ code st', exec (strncpy_s cfg dest dmax src slen none none) st = .ok (code, st') ∧
+      ∃ i, i < dmax ∧ st'.data (dest + i) = 0 := by
+  obtain ⟨code, st', he, _, h⟩ := strncpyG_safe _ cfg dest dmax src slen st hs.all hrw (Nat.le_refl _)
+  exact ⟨code, st', he, (h hd hpos hle).1⟩
+
+theorem strcat_s_C03 (cfg : Cfg) (dest dmax src : Nat) (st : St) (hs : Setting st)
+    (hrw : dest ≠ 0 → RW st dest dmax) (hd : dest ≠ 0) (hpos : 0 < dmax) (hle : dmax ≤ RSIZE_MAX_STR) :
+    ∃ code st', exec (strcat_s cfg dest dmax src none) st = .ok (code, st') ∧
+      ∃ i, i < dmax ∧ st'.data (dest + i) = 0 := by
+  obtain ⟨code, st', he, _, h⟩ := strcatG_safe _ cfg dest dmax src st hs.all hrw
+  exact ⟨code, st', he, (h hd hpos hle).1⟩
+
+theorem strncat_s_C03 (cfg : Cfg) (dest dmax src slen : Nat) (st : St) (hs : Setting st)
+    (hrw : dest ≠ 0 → RW st dest dmax) (hd : dest ≠ 0) (hpos : 0 < dmax) (hle : dmax ≤ RSIZE_MAX_STR)
+    (hslen : slen ≠ 0) :
+    ∃ code st', exec (strncat_s cfg dest dmax src slen none none) st = .ok (code, st') ∧
+      ∃ i, i < dmax ∧ st'.data (dest + i) = 0 := by
+  obtain ⟨code, st', he, _, h⟩ := strncatG_safe _ cfg dest dmax src slen st hs.all hrw hslen (Nat.le_refl _)
+  exact ⟨code, st', he, (h hd hpos hle).1⟩
+
 /-- the excluded point: `strcpy_s(d, 1, d)` with `d = "a"` returns EOK and dest[0..1) has no NUL -/
 def wSt : St :=
   { data := fun a => if a = 100 then 97 else 0, mapped := fun _ => true, rd := fun _ => true
